@@ -177,6 +177,11 @@ async fn e2e_case(rep: &mut Report, rng: &mut Rng, tr: Transport, nsubs: usize) 
   for _ in 0..nsubs {
     let s = ctx.socket(SocketType::Sub).unwrap();
     util::set_i32(&s, opt::RCVTIMEO, 2500).await;
+    if tr != Transport::Inproc {
+      // a receive queue smaller than an arriving batch: the publisher's bursts (<= 26 messages, far below its
+      // SNDHWM) must still arrive completely, held back only by back-pressure
+      util::set_i32(&s, opt::RCVHWM, *rng.pick(&[1, 2, 3, 256, 256])).await;
+    }
     s.set_option(opt::SUBSCRIBE, "~sentinel").await.unwrap();
     let mut m = BTreeMap::new();
     m.insert(b"~sentinel".to_vec(), 1usize);
@@ -280,6 +285,236 @@ async fn e2e_case(rep: &mut Report, rng: &mut Rng, tr: Transport, nsubs: usize) 
           format!("subscriber {} over {}: received {} messages, expected {} ({} unexpected, {} missing) with subscriptions {:?}", i, tr.name(), got.len(), want.len(), extra, missing, models[i].iter().filter(|(_, n)| **n > 0).map(|(k, n)| format!("{}x{}", hex(k), n)).collect::<Vec<_>>()),
           json!({"changes": changes, "first_unexpected": got.iter().find(|m| !want.contains(m)).map(|m| hex(&m[0])), "first_missing": want.iter().find(|m| !got.contains(m)).map(|m| hex(&m[0]))}),
         );
+      }
+    }
+  }
+  let _ = tokio::time::timeout(Duration::from_secs(12), ctx.term()).await;
+}
+
+/// Contention: several tasks publish, several tasks recv() on the SAME Sub handle, several tasks churn
+/// subscriptions on it. Stable topics are always subscribed and the queues are larger than the traffic, so each
+/// stable message must arrive exactly once; topics of a never-subscribed family must never arrive; churned topics
+/// may or may not (not judged). Mainly a target for the thread/address sanitizer flavours.
+async fn contend_case(rep: &mut Report, rng: &mut Rng, tr: Transport, receivers: usize, churners: usize, publishers: usize, per_pub: usize) {
+  let ctx = util::new_ctx();
+  let publ = ctx.socket(SocketType::Pub).unwrap();
+  util::set_i32(&publ, opt::SNDHWM, 100_000).await;
+  let ep = match util::bind_fresh(&publ, tr).await {
+    Ok(e) => e,
+    Err(e) => {
+      rep.inconclusive(format!("bind: {e}"));
+      return;
+    }
+  };
+  let sub = ctx.socket(SocketType::Sub).unwrap();
+  util::set_i32(&sub, opt::RCVHWM, 100_000).await;
+  util::set_i32(&sub, opt::RCVTIMEO, 300).await;
+  for p in 0..publishers {
+    sub.set_option(opt::SUBSCRIBE, format!("stable/{}/", p).as_str()).await.unwrap();
+  }
+  sub.set_option(opt::SUBSCRIBE, "~warm").await.unwrap();
+  let debug = std::env::var("VH_DEBUG").is_ok();
+  if debug {
+    let mon_s = sub.monitor(4096).await.unwrap();
+    let mon_p = publ.monitor(4096).await.unwrap();
+    let t0 = Instant::now();
+    tokio::spawn(async move {
+      while let Ok(ev) = mon_s.recv().await {
+        eprintln!("  [{:?}] SUB event {:?}", t0.elapsed(), ev);
+      }
+    });
+    tokio::spawn(async move {
+      while let Ok(ev) = mon_p.recv().await {
+        eprintln!("  [{:?}] PUB event {:?}", t0.elapsed(), ev);
+      }
+    });
+  }
+  sub.connect(&ep).await.unwrap();
+  let mut ok = false;
+  for _ in 0..400 {
+    let _ = publ.send(util::msg(b"~warm".to_vec(), false)).await;
+    if let Ok(Ok(_)) = tokio::time::timeout(Duration::from_millis(100), sub.recv()).await {
+      ok = true;
+      break;
+    }
+  }
+  if !ok {
+    rep.inconclusive(format!("contend: subscriber never saw the warm-up over {}", tr.name()));
+    let _ = tokio::time::timeout(Duration::from_secs(12), ctx.term()).await;
+    return;
+  }
+  let _ = sub.set_option(opt::UNSUBSCRIBE, "~warm").await;
+  while let Ok(Ok(_)) = tokio::time::timeout(Duration::from_millis(80), sub.recv()).await {}
+  let stop = Arc::new(AtomicBool::new(false));
+  let mut churn_handles = vec![];
+  for c in 0..churners {
+    let sub = sub.clone();
+    let stop = stop.clone();
+    churn_handles.push(tokio::spawn(async move {
+      let mut i = 0u64;
+      while !stop.load(Ordering::Relaxed) {
+        let t = format!("churn/{}/{}", c, i % 7);
+        let _ = sub.set_option(opt::SUBSCRIBE, t.as_str()).await;
+        // a topic nobody subscribed: must change nothing
+        let _ = sub.set_option(opt::UNSUBSCRIBE, format!("never/{}", i % 3).as_str()).await;
+        let _ = sub.set_option(opt::UNSUBSCRIBE, t.as_str()).await;
+        i += 1;
+      }
+      i
+    }));
+  }
+  // Receivers stop on a logical condition: every publisher's END marker (an always-subscribed topic, sent last,
+  // so per-publisher FIFO puts it after all of that publisher's messages) has been seen by some receiver, and the
+  // queue has then stayed empty for one RCVTIMEO. A generous watchdog only turns the case into "inconclusive".
+  let ends_seen = Arc::new(AtomicU64::new(0));
+  let gave_up = Arc::new(AtomicBool::new(false));
+  let mut recv_handles = vec![];
+  for _ in 0..receivers {
+    let sub = sub.clone();
+    let ends_seen = ends_seen.clone();
+    let gave_up = gave_up.clone();
+    let want_ends = publishers as u64;
+    recv_handles.push(tokio::spawn(async move {
+      let mut got: Vec<Vec<u8>> = vec![];
+      let started = Instant::now();
+      loop {
+        match sub.recv().await {
+          Ok(m) => {
+            let d = m.data().unwrap_or(&[]).to_vec();
+            if d.ends_with(b"/END") {
+              ends_seen.fetch_add(1, Ordering::SeqCst);
+            } else {
+              got.push(d);
+            }
+          }
+          Err(_) => {
+            if ends_seen.load(Ordering::SeqCst) >= want_ends {
+              break;
+            }
+            if started.elapsed() > Duration::from_secs(120) {
+              gave_up.store(true, Ordering::SeqCst);
+              break;
+            }
+          }
+        }
+      }
+      got
+    }));
+  }
+  let mut pub_handles = vec![];
+  for p in 0..publishers {
+    let publ = publ.clone();
+    let seed = rng.next();
+    pub_handles.push(tokio::spawn(async move {
+      let mut r = Rng::new(seed);
+      let mut sent_ok = 0usize;
+      for i in 0..per_pub {
+        if publ.send(util::msg(format!("stable/{}/{}", p, i).into_bytes(), false)).await.is_ok() {
+          sent_ok += 1;
+        }
+        let _ = publ.send(util::msg(format!("churn/{}/{}", r.range(0, 4), r.range(0, 7)).into_bytes(), false)).await;
+        let _ = publ.send(util::msg(format!("never/{}", r.range(0, 3)).into_bytes(), false)).await;
+        if r.chance(1, 8) {
+          tokio::task::yield_now().await;
+        }
+      }
+      let mut end_ok = false;
+      for _ in 0..50 {
+        if publ.send(util::msg(format!("stable/{}/END", p).into_bytes(), false)).await.is_ok() {
+          end_ok = true;
+          break;
+        }
+      }
+      if end_ok { sent_ok } else { 0 }
+    }));
+  }
+  let t0 = Instant::now();
+  let mut sent: Vec<usize> = vec![];
+  for h in pub_handles {
+    sent.push(h.await.unwrap_or(0));
+  }
+  let t_pub = t0.elapsed();
+  // keep churning until the END markers are through (or the receivers' watchdog gives up)
+  let wait0 = Instant::now();
+  while ends_seen.load(Ordering::SeqCst) < publishers as u64 && !gave_up.load(Ordering::SeqCst) && wait0.elapsed() < Duration::from_secs(125) {
+    tokio::time::sleep(Duration::from_millis(20)).await;
+  }
+  stop.store(true, Ordering::Relaxed);
+  if std::env::var("VH_DEBUG").is_ok() {
+    eprintln!("contend {} rx={} ch={} pubs={} per_pub={}: publishers done after {:?} sent={:?}", tr.name(), receivers, churners, publishers, per_pub, t_pub, sent);
+  }
+  let mut churn_ops = 0u64;
+  for h in churn_handles {
+    churn_ops += h.await.unwrap_or(0);
+  }
+  let mut all: Vec<Vec<u8>> = vec![];
+  let mut per_receiver: Vec<Vec<Vec<u8>>> = vec![];
+  for h in recv_handles {
+    match tokio::time::timeout(Duration::from_secs(130), h).await {
+      Ok(Ok(g)) => {
+        all.extend(g.iter().cloned());
+        per_receiver.push(g);
+      }
+      _ => {
+        rep.inconclusive("contend: a receiver task did not finish".to_string());
+      }
+    }
+  }
+  if gave_up.load(Ordering::SeqCst) || ends_seen.load(Ordering::SeqCst) < publishers as u64 {
+    rep.inconclusive(format!("contend: only {} of {} END markers arrived within the 120 s watchdog over {} ({} messages received): slow or lost cannot be told apart", ends_seen.load(Ordering::SeqCst), publishers, tr.name(), all.len()));
+    let _ = tokio::time::timeout(Duration::from_secs(12), ctx.term()).await;
+    return;
+  }
+  rep.case(&("contend", tr, receivers, churners, publishers, per_pub, all.len() as u64, churn_ops), true);
+  let label = format!("{}|rx={}", tr.name(), if receivers == 1 { "1" } else { "n" });
+  let mut counts: BTreeMap<Vec<u8>, usize> = BTreeMap::new();
+  for m in &all {
+    *counts.entry(m.clone()).or_insert(0) += 1;
+  }
+  let never = all.iter().filter(|m| m.starts_with(b"never/")).count();
+  if never > 0 {
+    rep.violation(format!("contend_delivered_never_subscribed|{}", label), format!("{} messages of the never-subscribed family were delivered while other topics were being churned ({} churn rounds)", never, churn_ops), json!({"receivers": receivers, "churners": churners}));
+  }
+  let mut missing = 0usize;
+  let mut dup = 0usize;
+  let mut first_missing = None;
+  for p in 0..publishers {
+    if sent[p] != per_pub {
+      rep.inconclusive(format!("contend: publisher {} had {} of {} sends accepted", p, sent[p], per_pub));
+      continue;
+    }
+    for i in 0..per_pub {
+      match counts.get(format!("stable/{}/{}", p, i).as_bytes()) {
+        None => {
+          missing += 1;
+          first_missing.get_or_insert((p, i));
+        }
+        Some(1) => {}
+        Some(_) => dup += 1,
+      }
+    }
+  }
+  if missing > 0 || dup > 0 {
+    rep.violation(
+      format!("contend_stable_{}|{}", if dup > 0 { "duplicated" } else { "missing" }, label),
+      format!("always-subscribed topics with queues larger than the traffic: {} missing, {} duplicated of {} (receivers={} churners={} over {})", missing, dup, publishers * per_pub, receivers, churners, tr.name()),
+      json!({"first_missing": first_missing.map(|(p, i)| format!("stable/{}/{}", p, i)), "received_total": all.len()}),
+    );
+  }
+  if receivers == 1 {
+    // one receiver task: per-publisher publication order must be preserved
+    let mut last: BTreeMap<usize, i64> = BTreeMap::new();
+    for m in &per_receiver[0] {
+      if let Some(rest) = m.strip_prefix(b"stable/") {
+        let t = String::from_utf8_lossy(rest).to_string();
+        let mut it = t.split('/');
+        let (p, i) = (it.next().and_then(|x| x.parse::<usize>().ok()).unwrap_or(0), it.next().and_then(|x| x.parse::<i64>().ok()).unwrap_or(-1));
+        let l = last.entry(p).or_insert(-1);
+        if i <= *l {
+          rep.violation(format!("contend_order|{}", label), format!("publisher {}: message {} delivered after {}", p, i, *l), json!({}));
+          break;
+        }
+        *l = i;
       }
     }
   }
@@ -400,6 +635,30 @@ fn main() {
         }
         let tr = [Transport::Tcp, Transport::Inproc, Transport::Ipc][i % 3];
         rt.block_on(e2e_case(&mut rep, &mut rng, tr, 1 + i % 3));
+      }
+      util::cleanup_ipc_dir();
+    }
+    Some("contend") if std::env::var("VH_CONTEND").is_ok() => {
+      // debugging aid: VH_CONTEND=tr,receivers,churners,publishers,per_pub,repeats
+      let v: Vec<usize> = std::env::var("VH_CONTEND").unwrap().split(',').map(|x| x.parse().unwrap_or(0)).collect();
+      let rt = util::runtime(4);
+      for _ in 0..v[5] {
+        let tr = [Transport::Tcp, Transport::Inproc, Transport::Ipc][v[0] % 3];
+        util::guarded(&rt, contend_case(&mut rep, &mut rng, tr, v[1], v[2], v[3], v[4]));
+      }
+    }
+    Some("contend") => {
+      let rt = util::runtime(4);
+      let n = if args.thorough() { 12 } else { 4 };
+      for i in 0..n {
+        if !args.mine(i) {
+          continue;
+        }
+        let tr = [Transport::Tcp, Transport::Inproc, Transport::Ipc][i % 3];
+        let receivers = [4, 1, 8, 2][i % 4];
+        let per_pub = if args.thorough() { 400 } else { 150 };
+        let ok = util::guarded(&rt, contend_case(&mut rep, &mut rng, tr, receivers, 1 + i % 3, 1 + (i / 2) % 3, per_pub));
+        let _ = ok;
       }
       util::cleanup_ipc_dir();
     }
